@@ -448,6 +448,14 @@ def plan_for(cls, name, worker_id, try_index, timeout=100.0):
     mode = plan.get("dur_mode", "heavy")
     if mode == "const":
         duration = float(plan.get("dur_const", 10))
+    elif mode == "long":
+        # most of the timeout, never beyond it
+        duration = timeout * rnd.choice([0.55, 0.7, 0.8, 0.9, 0.95])
+        if "stateless.noop" in cls:
+            # the configuration step of a two-step creation: the pair stays within the timeout of the creation
+            duration = 0.5
+        elif cls.startswith("original."):
+            duration = min(duration, timeout * 0.9 - 0.5)
     elif mode == "short":
         duration = min(timeout * 0.9, rnd.choice([0.5, 1.0, 2.0, 3.0, 5.0, 8.0, 13.0, 20.0]) * rnd.choice([1.0, 1.0, 1.1]))
     elif mode == "tied":
@@ -657,7 +665,7 @@ def worker_table(graph):
     return table
 
 
-def make_runner(params, previous_results=None):
+def make_runner(params, previous_results=None, results_file_dir=None):
     from avocado_i2n.plugins.runner import TestRunner
     job = mock.MagicMock()
     job.logdir = "."
@@ -668,13 +676,23 @@ def make_runner(params, previous_results=None):
     runner = TestRunner()
     runner.job = job
     runner.status_server = job
-    runner.previous_results = list(previous_results or [])
+    if results_file_dir is not None and params.get("replay"):
+        # the previous job's results reach the runner the way they do in a real run: through its results.json
+        job.config["datadir.paths.logs_dir"] = results_file_dir
+        os.makedirs(os.path.join(results_file_dir, params["replay"]), exist_ok=True)
+        with open(os.path.join(results_file_dir, params["replay"], "results.json"), "w") as fd:
+            json.dump({"tests": list(previous_results or [])}, fd)
+        runner.previous_results = []
+        runner.results_from_previous_jobs()
+    else:
+        runner.previous_results = list(previous_results or [])
     return runner
 
 
 def snapshot_nodes(graph):
     from virttest.utils_params import Params
     nodes = []
+    previous = list(getattr(getattr(graph, "runner", None), "previous_results", None) or [])
     for node in graph.nodes:
         name = node.params["name"]
         view = [] if node.is_flat() else node_state_view(Params(dict(node.params)))
@@ -688,6 +706,7 @@ def snapshot_nodes(graph):
                       "worker": worker_of_name(name), "flat": node.is_flat(), "clone_source": len(node.cloned_nodes) > 0,
                       "shared_root": node.is_shared_root(), "object_root": node.params.get("object_root"),
                       "results": [r["status"] for r in node.results], "result_names": [r.get("name") for r in node.results],
+                      "result_previous": [any(r is p for p in previous) for r in node.results],
                       "incompatible_workers": sorted(node.incompatible_workers),
                       "started_worker": node.started_worker.id if node.started_worker else None,
                       "finished_worker": node.finished_worker.id if node.finished_worker else None,
@@ -710,7 +729,15 @@ def run_traversal(graph, params, case, runner):
     outcome = {"exception": None, "vtime": None, "worker_errors": {}}
 
     async def main():
-        tasks = [loop.create_task(graph.traverse_object_trees(worker, params), name=worker.id) for worker in slot_workers]
+        delays = case.get("start_delays") or {}
+
+        async def traverse(worker):
+            # a worker whose environment came up later than the others joins the traversal later
+            if delays.get(worker.id):
+                await asyncio.sleep(delays[worker.id])
+            return await graph.traverse_object_trees(worker, params)
+
+        tasks = [loop.create_task(traverse(worker), name=worker.id) for worker in slot_workers]
         interrupt_at = case.get("interrupt_at") if CTX.phase == 0 else None
         if interrupt_at is not None:
             def interrupt():
@@ -768,17 +795,36 @@ def run_case(case):
     install_seams()
     CTX.main_restrictions = param.all_restrictions()
     record = {"phases": []}
+    results_dir = None
     try:
-        phases = 2 if case.get("interrupt_at") is not None else 1
+        replay_run = case.get("replay_run")
+        phases = 2 if case.get("interrupt_at") is not None or replay_run else 1
         for phase in range(phases):
             CTX.phase = phase
-            CTX.exec_counts = collections.Counter() if phase else CTX.exec_counts
+            CTX.exec_counts = collections.Counter() if phase and not replay_run else CTX.exec_counts
             CTX.iterations = collections.Counter()
+            if phase == 1 and replay_run:
+                # second job replaying the first one: possibly another worker set, other settings, pools partly wiped
+                import tempfile
+                results_dir = tempfile.mkdtemp(prefix="verif-results-")
+                first = record["phases"][0]
+                case["first_run"] = {"nets": case["nets"], "params": dict(case.get("params", {}))}
+                case["previous_results"] = [{"name": r["name"], "status": r["status"], "time_elapsed": 1.0} for r in first["job_results"]]
+                case["nets"] = replay_run.get("nets", case["nets"])
+                kept = {k: v for k, v in case.get("params", {}).items() if k not in replay_run.get("drop_params", [])}
+                case["params"] = {**kept, **replay_run.get("params", {}), "replay": "previous-job"}
+                case.pop("start_delays", None)
+                wipe = replay_run.get("wipe")
+                for location in list(CTX.store.states):
+                    if wipe == "own" and not location.startswith(":"):
+                        CTX.store.states[location].clear()
+                    elif isinstance(wipe, list):
+                        CTX.store.states[location] = {entry for entry in CTX.store.states[location] if entry[1] not in wipe}
             graph, params = build_graph(case)
             CTX.workers = worker_table(graph)
             if phase == 0:
                 seed_permanent_states(graph, case)
-            runner = make_runner(params, case.get("previous_results"))
+            runner = make_runner(params, case.get("previous_results"), results_dir)
             store_before = CTX.store.dump()
             outcome = run_traversal(graph, params, case, runner)
             try:
@@ -794,9 +840,11 @@ def run_case(case):
         record["setup_exception"] = {"type": type(error).__name__, "message": str(error)[:800], "trace": traceback.format_exc()[-3000:]}
     record["events"] = CTX.events
     record["main_restrictions"] = CTX.main_restrictions
+    import shutil
     if scratch:
-        import shutil
         shutil.rmtree(scratch, ignore_errors=True)
+    if results_dir:
+        shutil.rmtree(results_dir, ignore_errors=True)
     return record
 
 
